@@ -1,9 +1,278 @@
-import MJ.Model.Cmp
-import MJ.Model.Coll
-namespace MJ.C07
-open MJ MJ.Val MJ.Cmp MJ.Coll
+import MJ.Proofs.CmpNum
+import MJ.Proofs.CmpF64Order
+import MJ.Proofs.CollGroup
+import MJ.Proofs.CollRuns
+/-!
+# C07 — Value order / equality / hash laws and the algebra of the collection filters
 
-theorem reverse_involutive {α : Type} (xs : List α) : reverseIter (reverseIter xs) = xs := by
-  simp [reverseIter]
+Property theorems only (helper lemmas live in `MJ/Proofs/Cmp*.lean`, `MJ/Proofs/Coll*.lean`).
+
+* `Cmp.cmpV`, `Cmp.eqV`, `Cmp.hkey` are the models of `impl Ord / PartialEq / Hash for Value`;
+* `CmpKey.key : V → List Tok` is an explicit key into a linearly ordered type (token lists under
+  the lexicographic order `cmpK`; a token is four plain fields compared lexicographically);
+* `Coll.*` are the models of the collection filters over an arbitrary item type and comparison.
+-/
+namespace MJ.C07
+open MJ MJ.Val MJ.Cmp MJ.F64 MJ.CmpKey MJ.CmpNum MJ.Coll Std
+
+/-! ## the order -/
+
+/-- no float anywhere inside the value -/
+abbrev NoFloat (v : V) : Prop := AllNum (fun n => n.isFloat = false) v
+
+/-- `Value::cmp` is `compare` on the explicit key (stage 1: values without floats) -/
+theorem cmp_refines_key_nofloat (a b : V) (ha : NoFloat a) (hb : NoFloat b) :
+    cmpV a b = cmpK (key a) (key b) :=
+  cmpV_eq_cmpK numSpec_int a b ha hb
+
+example : NoFloat (.seq [.num (.i64 (-1)), .map [(.str [97], .num (.u128 5))], .bool true]) := by
+  simp [AllNum, AllNumL, AllNumPL, N.isFloat]
+
+theorem cmp_refl_nofloat (a : V) (ha : NoFloat a) : cmpV a a = .eq := by
+  rw [cmp_refines_key_nofloat a a ha ha]; exact ReflCmp.compare_self
+
+theorem cmp_antisymm_nofloat (a b : V) (ha : NoFloat a) (hb : NoFloat b) :
+    cmpV b a = (cmpV a b).swap := by
+  rw [cmp_refines_key_nofloat a b ha hb, cmp_refines_key_nofloat b a hb ha]
+  exact OrientedCmp.eq_swap
+
+theorem cmp_trans_nofloat (a b c : V) (ha : NoFloat a) (hb : NoFloat b) (hc : NoFloat c)
+    (h1 : cmpV a b ≠ .gt) (h2 : cmpV b c ≠ .gt) : cmpV a c ≠ .gt := by
+  rw [cmp_refines_key_nofloat _ _ ha hb] at h1
+  rw [cmp_refines_key_nofloat _ _ hb hc] at h2
+  rw [cmp_refines_key_nofloat _ _ ha hc]
+  exact Ordering.ne_gt_iff_isLE.mpr
+    (TransCmp.isLE_trans (Ordering.ne_gt_iff_isLE.mp h1) (Ordering.ne_gt_iff_isLE.mp h2))
+
+/-- equal-by-order is a congruence for the order: `a ≡ b → cmp a c = cmp b c` -/
+theorem cmp_congr_nofloat (a b c : V) (ha : NoFloat a) (hb : NoFloat b) (hc : NoFloat c)
+    (h : cmpV a b = .eq) : cmpV a c = cmpV b c := by
+  rw [cmp_refines_key_nofloat _ _ ha hb] at h
+  rw [cmp_refines_key_nofloat _ _ ha hc, cmp_refines_key_nofloat _ _ hb hc]
+  exact TransCmp.congr_left h
+
+/-- the comparison is defined for every pair: whenever two values land in the same kind slot they
+    are of the same class, so none of the `unreachable!()` / `unwrap()` arms of `Ord::cmp` is
+    reachable (the slots come from the regenerated declaration order of `ValueKind`) -/
+theorem cmp_no_unreachable (a b : V) (h : a.rank = b.rank) : cls a = cls b :=
+  cls_eq_of_rank_eq h
+
+/-- the float/float part is exact on bit patterns (all patterns, incl. ±0, ±inf, NaN) -/
+theorem cmp_f64_refines_key (x y : Nat) : cmpF64 x y = compare (F64.key x) (F64.key y) :=
+  cmpF64_eq x y
+
+/-! ## the collection filters, for every input list and every total preorder `cmp` -/
+
+section filters
+variable {α κ : Type} (cmp : κ → κ → Ordering) [TransCmp cmp] (key : α → κ)
+
+theorem sort_perm (rev : Bool) (xs : List α) : (Coll.sort cmp key rev xs).Perm xs :=
+  sort_perm' cmp key rev xs
+
+/-- ascending: no item is greater than a later one -/
+theorem sort_sorted (xs : List α) :
+    (Coll.sort cmp key false xs).Pairwise (fun a b => cmp (key a) (key b) ≠ .gt) := by
+  have h := sort_sorted' cmp key false xs
+  simpa [revCmp] using h
+
+/-- `reverse=true`: descending -/
+theorem sort_reverse_sorted (xs : List α) :
+    (Coll.sort cmp key true xs).Pairwise (fun a b => cmp (key a) (key b) ≠ .lt) := by
+  have h := sort_sorted' cmp key true xs
+  refine h.imp ?_
+  intro a b hab
+  simp only [revCmp, if_true] at hab
+  intro hc; rw [hc] at hab; exact hab rfl
+
+/-- stable: every sub-sequence of the input that is in order is a sub-sequence of the output -/
+theorem sort_stable (xs ys : List α) (hs : ys.Sublist xs)
+    (ho : ys.Pairwise (fun a b => cmp (key a) (key b) ≠ .gt)) :
+    ys.Sublist (Coll.sort cmp key false xs) :=
+  sort_stable' cmp key false xs ys hs (by simpa [revCmp] using ho)
+
+/-- still stable with `reverse=true`: items with equal keys keep their input order -/
+theorem sort_reverse_stable (xs : List α) (a b : α) (hs : [a, b].Sublist xs)
+    (he : cmp (key a) (key b) = .eq) : [a, b].Sublist (Coll.sort cmp key true xs) :=
+  sort_equal_keys_keep_order cmp key true xs a b hs he
+
+/-- the hypotheses are satisfiable: `compare` on `Nat` is such a total preorder, and pairs keyed by
+    their first component have distinct items with `Equal` keys -/
+example : TransCmp (compare : Nat → Nat → Ordering) := inferInstance
+example : [((1 : Nat), (0 : Nat)), (1, 2)].Sublist [(1, 0), (2, 1), (1, 2)] ∧
+    compare ((1, 0) : Nat × Nat).1 ((1, 2) : Nat × Nat).1 = .eq := by decide
+
+/-- `unique`: an order-preserving sub-sequence without two `Equal` keys that represents every input
+    key and keeps the first item of every key class -/
+theorem unique_subseq_nodup_first (xs : List α) :
+    (Coll.unique cmp key xs).Sublist xs ∧
+    (Coll.unique cmp key xs).Pairwise (fun a b => cmp (key a) (key b) ≠ .eq) ∧
+    (∀ x ∈ xs, ∃ y ∈ Coll.unique cmp key xs, cmp (key y) (key x) = .eq) ∧
+    (∀ pre x post, xs = pre ++ x :: post → (∀ p ∈ pre, cmp (key p) (key x) ≠ .eq) →
+      x ∈ Coll.unique cmp key xs) := by
+  refine ⟨uniqueLoop_sublist cmp key xs [], (uniqueLoop_nodup cmp key xs []).2, ?_, ?_⟩
+  · intro x hx
+    rcases uniqueLoop_covers cmp key xs [] x hx with ⟨s, hs, _⟩ | h
+    · simp at hs
+    · exact h
+  · intro pre x post hxs hpre
+    subst hxs
+    exact uniqueLoop_keeps_first cmp key pre post x [] (by simp) hpre
+
+/-- `groupby`: the groups concatenate to the input sorted by key (so they partition the input), no
+    group is empty, every member's key is `Equal` to its group's grouper, and the groupers are
+    strictly increasing (one group per key class) -/
+theorem groupby_partition (xs : List α) :
+    ((Coll.groupby cmp key xs).flatMap (·.2) = Coll.sort cmp key false xs) ∧
+    ((Coll.groupby cmp key xs).flatMap (·.2)).Perm xs ∧
+    (∀ p ∈ Coll.groupby cmp key xs, p.2 ≠ [] ∧ ∀ y ∈ p.2, cmp p.1 (key y) = .eq) ∧
+    (Coll.groupby cmp key xs).Pairwise (fun p q => cmp p.1 q.1 = .lt) := by
+  have hf := groupLoop_flatten cmp key (Coll.sort cmp key false xs) none [] (by simp)
+  simp only [List.nil_append] at hf
+  refine ⟨hf, ?_, ?_, ?_⟩
+  · show ((groupLoop cmp key (Coll.sort cmp key false xs) none []).flatMap (·.2)).Perm xs
+    rw [hf]; exact sort_perm cmp key false xs
+  · exact groupLoop_members cmp key _ none [] ⟨by simp, by simp⟩
+  · exact (groupLoop_keys_increasing cmp key _ none [] (sort_sorted cmp key xs) (by simp)).2
+
+theorem min_le_all (cmpa : α → α → Ordering) [TransCmp cmpa] (xs : List α) (m : α)
+    (h : Coll.minBy cmpa xs = some m) : ∀ x ∈ xs, cmpa m x ≠ .gt := by
+  cases xs with
+  | nil => simp [minBy] at h
+  | cons y ys =>
+    simp only [minBy, Option.some.injEq] at h
+    obtain ⟨h1, h2, _⟩ := foldl_min_le ys cmpa y
+    intro x hx
+    rw [← h]
+    rcases List.mem_cons.mp hx with rfl | hx
+    · exact Ordering.ne_gt_iff_isLE.mpr h1
+    · exact Ordering.ne_gt_iff_isLE.mpr (h2 x hx)
+
+theorem min_mem (cmpa : α → α → Ordering) [TransCmp cmpa] (xs : List α) (m : α)
+    (h : Coll.minBy cmpa xs = some m) : m ∈ xs := by
+  cases xs with
+  | nil => simp [minBy] at h
+  | cons y ys =>
+    simp only [minBy, Option.some.injEq] at h
+    obtain ⟨_, _, h3⟩ := foldl_min_le ys cmpa y
+    rw [← h]
+    rcases h3 with h3 | h3
+    · rw [h3]; exact List.mem_cons_self
+    · exact List.mem_cons_of_mem _ h3
+
+theorem max_ge_all (cmpa : α → α → Ordering) [TransCmp cmpa] (xs : List α) (m : α)
+    (h : Coll.maxBy cmpa xs = some m) : (∀ x ∈ xs, cmpa m x ≠ .lt) ∧ m ∈ xs := by
+  cases xs with
+  | nil => simp [maxBy] at h
+  | cons y ys =>
+    simp only [maxBy, Option.some.injEq] at h
+    obtain ⟨h1, h2, h3⟩ := foldl_max_ge ys cmpa y
+    rw [← h]
+    refine ⟨?_, ?_⟩
+    · intro x hx
+      rcases List.mem_cons.mp hx with rfl | hx
+      · intro hc; rw [hc] at h1; exact absurd h1 (by decide)
+      · intro hc; have := h2 x hx; rw [hc] at this; exact absurd this (by decide)
+    · rcases h3 with h3 | h3
+      · rw [h3]; exact List.mem_cons_self
+      · exact List.mem_cons_of_mem _ h3
+
+theorem min_max_empty (cmpa : α → α → Ordering) :
+    Coll.minBy cmpa ([] : List α) = none ∧ Coll.maxBy cmpa ([] : List α) = none := ⟨rfl, rfl⟩
+
+end filters
+
+/-- `reverse` is an involution on every enumerator shape (index-based for `Enumerator::Seq`,
+    collect-and-reverse for iterators), and both shapes give the reversed item list -/
+theorem reverse_involutive {α : Type} (d : α) (xs : List α) :
+    reverseSeq d xs = xs.reverse ∧ reverseIter xs = xs.reverse ∧
+    reverseSeq d (reverseSeq d xs) = xs ∧ reverseIter (reverseIter xs) = xs ∧
+    reverseIter (reverseSeq d xs) = xs ∧ reverseSeq d (reverseIter xs) = xs := by
+  simp [reverseSeq_eq, reverseIter]
+
+/-- `first` / `last` -/
+theorem first_last {α : Type} (xs : List α) :
+    Coll.first xs = xs.head? ∧ Coll.last xs = xs.getLast? := by
+  simp [Coll.first, Coll.last, List.head?_reverse]
+
+/-! ### batch -/
+
+/-- without a fill value the runs concatenate to the input -/
+theorem batch_concat {α : Type} (xs : List α) (n : Nat) (hn : 0 < n) :
+    ∃ rs, batch xs n none = .ok rs ∧ rs.flatten = xs := by
+  obtain ⟨rs, h1, h2, _⟩ := batch_nofill xs n hn
+  exact ⟨rs, h1, h2⟩
+
+/-- every run but the last has exactly `count` items, the last between 1 and `count`; with a fill
+    value every run has `count` items and the concatenation is the input plus fewer than `count`
+    fillers (or an `Err` when the padded run cannot be allocated); `count = 0` is an `Err`; no panic -/
+theorem batch_lengths {α : Type} (xs : List α) (n : Nat) :
+    (n = 0 → ∀ fill, batch xs n fill = .error) ∧
+    (0 < n → ∃ rs, batch xs n none = .ok rs ∧ (∀ r ∈ rs.dropLast, r.length = n) ∧
+      (∀ r, rs.getLast? = some r → 0 < r.length ∧ r.length ≤ n)) ∧
+    (0 < n → ∀ f, batch xs n (some f) = .error ∨
+      ∃ rs k, batch xs n (some f) = .ok rs ∧ k < n ∧ rs.flatten = xs ++ List.replicate k f ∧
+        ∀ r ∈ rs, r.length = n) := by
+  refine ⟨fun h fill => by subst h; exact batch_zero xs fill, ?_, fun hn f => batch_fill xs n hn f⟩
+  intro hn
+  obtain ⟨rs, h1, _, h3, h4⟩ := batch_nofill xs n hn
+  exact ⟨rs, h1, h3, h4⟩
+
+example : batch [1, 2, 3, 4, 5] 2 (some 0) = .ok [[1, 2], [3, 4], [5, 0]] := by decide
+example : batch [1, 2, 3] 9223372036854775807 (none : Option Nat) = .ok [[1, 2, 3]] := by decide
+example : batch [1, 2, 3] 9223372036854775807 (some 0) = .error := by decide
+
+/-! ### slice -/
+
+/-- `slice` returns exactly `count` runs that concatenate to the input (no fill value); `count = 0`
+    and a `count` that cannot be reserved are an `Err`; it never panics (lists shorter than 2^64) -/
+theorem slicef_concat {α : Type} (xs : List α) (count : Nat) (hlen : xs.length < 18446744073709551616) :
+    (count = 0 ∨ reservable count = false → ∀ fill, slicef xs count fill = .error) ∧
+    (0 < count → reservable count = true →
+      ∃ rs, slicef xs count none = .ok rs ∧ rs.length = count ∧ rs.flatten = xs) := by
+  refine ⟨fun h fill => slicef_error xs count fill h, ?_⟩
+  intro hc hr
+  refine ⟨_, slicef_ok xs count none hc hr hlen, by simp, ?_⟩
+  have h := pieces_flatten xs (xs.length / count) (xs.length % count) count
+    (by rw [pos_count _ _ hc]; exact Nat.le_refl _)
+  rw [pos_count _ _ hc, List.take_length] at h
+  exact h
+
+/-- run `i` has `len / count` items, one more for the first `len % count` runs — so the lengths are
+    non-increasing and differ by at most one; with a fill value all runs have `len / count + 1` items -/
+theorem slicef_lengths_differ_le_one {α : Type} (xs : List α) (count : Nat) (hc : 0 < count)
+    (hr : reservable count = true) (hlen : xs.length < 18446744073709551616) :
+    (∃ rs, slicef xs count none = .ok rs ∧ rs.length = count ∧
+      (∀ i (h : i < rs.length), rs[i].length = xs.length / count + (if i < xs.length % count then 1 else 0)) ∧
+      (∀ i j (hi : i < rs.length) (hj : j < rs.length), i ≤ j →
+        rs[j].length ≤ rs[i].length ∧ rs[i].length ≤ rs[j].length + 1)) ∧
+    (∀ f, ∃ rs, slicef xs count (some f) = .ok rs ∧ rs.length = count ∧
+      ∀ r ∈ rs, r.length = xs.length / count + 1) := by
+  have hpos : ∀ i, i < count → pos (xs.length / count) (xs.length % count) (i + 1) ≤ xs.length := by
+    intro i hi
+    have := pos_mono (xs.length / count) (xs.length % count) (i + 1) count (by omega)
+    rw [pos_count _ _ hc] at this; exact this
+  have hlen_i : ∀ i (h : i < ((List.range count).map (runOf xs (xs.length / count) (xs.length % count) none)).length),
+      (((List.range count).map (runOf xs (xs.length / count) (xs.length % count) none))[i]).length =
+        xs.length / count + (if i < xs.length % count then 1 else 0) := by
+    intro i h
+    simp only [List.length_map, List.length_range] at h
+    simp only [List.getElem_map, List.getElem_range]
+    exact runOf_length_nofill xs _ _ i (hpos i h)
+  refine ⟨⟨_, slicef_ok xs count none hc hr hlen, by simp, hlen_i, ?_⟩, ?_⟩
+  · intro i j hi hj hij
+    rw [hlen_i i hi, hlen_i j hj]
+    by_cases h1 : i < xs.length % count <;> by_cases h2 : j < xs.length % count <;>
+      simp [h1, h2] <;> omega
+  · intro f
+    refine ⟨_, slicef_ok xs count (some f) hc hr hlen, by simp, ?_⟩
+    intro r hr'
+    simp only [List.mem_map, List.mem_range] at hr'
+    obtain ⟨i, hi, rfl⟩ := hr'
+    exact runOf_length_fill xs _ _ i f (hpos i hi)
+
+example : slicef [1, 2, 3, 4, 5, 6, 7] 3 (none : Option Nat) = .ok [[1, 2, 3], [4, 5], [6, 7]] := by decide
+example : slicef [1, 2, 3, 4, 5, 6, 7] 3 (some 0) = .ok [[1, 2, 3], [4, 5, 0], [6, 7, 0]] := by decide
+example : slicef [1, 2] 9223372036854775807 (none : Option Nat) = .error := by decide
+example : reservable 3 = true ∧ (0 : Nat) < 3 := by decide
 
 end MJ.C07
